@@ -197,7 +197,7 @@ Qed.
 Definition FWF (c : cfg) (B : Z) (a : afile) : Prop :=
   (exists g tl, f_index a = (g, 0) :: tl /\ wlo c (f_ms a) <= g) /\
   rows_wf (f_index a) (zlen (f_data a)) (Z.min B (whi c (f_ms a))) /\
-  (exists K0, f_ms a = Fk c K0).
+  (exists K0, 0 <= K0 /\ f_ms a = Fk c K0).
 
 Record Inv (c : cfg) (st : wstate) : Prop := mkInv {
   inv_nf : w_failed st = false;
@@ -224,7 +224,7 @@ Proof. intros H. exact H. Qed.
 (* a well-formed file lies below K and is not K's file: its whole window lies below K *)
 Lemma FWF_below c B a K : vcfg c -> FWF c B a -> B <= K -> f_ms a <> Fk c K -> whi c (f_ms a) <= K.
 Proof.
-  intros Hc ((g & tl & Hi & Hlo) & Hwf & (K0 & HK0)) HB Hne.
+  intros Hc ((g & tl & Hi & Hlo) & Hwf & (K0 & HK0n & HK0)) HB Hne.
   rewrite Hi in Hwf. apply rows_wf_first_lt_top in Hwf.
   destruct (Z_lt_le_dec K (whi c (f_ms a))) as [Hlt|Hge]; [|exact Hge].
   exfalso. apply Hne. rewrite HK0. symmetry. apply (Fk_same c K0 K Hc). rewrite <- HK0. lia.
@@ -249,6 +249,9 @@ Lemma step_chunked c st g vec sw :
   exists st',
     write_samples_to_file c st sw [(g, 0)] vec = (Wrote stw, st') /\ 0 < stw /\
     Inv c st' /\ w_gi st' = g + sw + stw /\
+    (map f_ms (all_files st') = map f_ms (all_files st) \/
+     (map f_ms (all_files st') = map f_ms (all_files st) ++ [Fk c K] /\
+      Forall (fun a => whi c (f_ms a) <= K) (all_files st))) /\
     forall k, lookup_st st' k =
       match lookup_st st k with
       | Some v => Some v
@@ -284,7 +287,7 @@ Proof.
     assert (Hnia0 : (w_nia st =? 0) = false).
     { apply Z.eqb_neq. rewrite Hnia, Hidx. unfold zlen. cbn [length]. lia. }
     rewrite Hnia0. cbn [map fst snd rev app]. rewrite Hdi.
-    eexists. split; [reflexivity|]. split; [exact Hstw|]. split; [|split].
+    eexists. split; [reflexivity|]. split; [exact Hstw|]. split; [|split; [|split]].
     + (* invariant *)
       constructor; cbn [w_failed w_files w_openf w_cur w_di w_nia w_gi].
       * exact Hnf.
@@ -301,6 +304,7 @@ Proof.
         -- cbn [f_data]. unfold zlen in *. rewrite app_length. lia.
         -- cbn [f_index]. unfold zlen in *. rewrite app_length. cbn [length]. lia.
     + cbn [w_gi]. unfold K. lia.
+    + left. unfold all_files. cbn [w_files w_openf]. rewrite Eopen. rewrite !map_app. reflexivity.
     + (* lookup *)
       intros k. unfold lookup_st, all_files. cbn [w_files w_openf]. rewrite Eopen.
       rewrite !files_lookup_app. destruct (files_lookup (w_files st) k) as [v|]; [reflexivity|].
@@ -323,7 +327,7 @@ Proof.
     assert (Hnofinal : has_final F (finalize st) = false).
     { apply has_final_false. eapply Forall_impl; [|exact Hfin]. intros x (_ & Hx) E. rewrite E in Hx. lia. }
     rewrite Hnofinal. cbn [w_di w_nia w_gi w_cur w_seq w_failed w_files f_ms f_index f_data f_cap f_seq Z.eqb app map rev].
-    eexists. split; [reflexivity|]. split; [exact Hstw|]. split; [|split].
+    eexists. split; [reflexivity|]. split; [exact Hstw|]. split; [|split; [|split]].
     + constructor; cbn [w_failed w_files w_openf w_cur w_di w_nia w_gi].
       * exact Hnf.
       * eapply Forall_impl; [|exact Hfin]. intros x (Hx1 & Hx2). split; [|lia].
@@ -332,10 +336,20 @@ Proof.
         -- split; [|split]; cbn [f_index f_data f_ms app].
            ++ exists K, []. split; [reflexivity|lia].
            ++ cbn [rows_wf]. rewrite Hnew. unfold stw. lia.
-           ++ exists K. reflexivity.
+           ++ exists K. split; [unfold K; destruct Hc as (_ & _ & _ & Hs0); lia|reflexivity].
         -- cbn [f_data app]. lia.
         -- cbn [f_index app]. reflexivity.
     + cbn [w_gi]. unfold K. lia.
+    + right.
+      assert (Hms : map f_ms (finalize st) = map f_ms (all_files st) /\ Forall (fun a => whi c (f_ms a) <= K) (all_files st)).
+      { unfold finalize, all_files in *. destruct (w_openf st) as [a|].
+        - rewrite Hnf in *. rewrite !map_app. cbn [map set_final f_ms]. split; [reflexivity|].
+          apply Forall_app in Hfin as [H1 H2]. apply Forall_app. split.
+          + eapply Forall_impl; [|exact H1]. intros x (_ & Hx). exact Hx.
+          + inversion H2 as [|? ? (_ & Hx) _]; subst. constructor; [exact Hx|constructor].
+        - rewrite app_nil_r. split; [reflexivity|]. eapply Forall_impl; [|exact Hfin]. intros x (_ & Hx). exact Hx. }
+      destruct Hms as (Hms1 & Hms2). split; [|exact Hms2].
+      unfold all_files at 1. cbn [w_files w_openf]. rewrite map_app, Hms1. reflexivity.
     + intros k. unfold lookup_st, all_files. cbn [w_files w_openf].
       rewrite files_lookup_app.
       assert (Hold : files_lookup (finalize st) k = files_lookup (w_files st ++ match w_openf st with Some a => [a] | None => [] end) k).
@@ -345,6 +359,37 @@ Proof.
       destruct (files_lookup (w_files st ++ match w_openf st with Some a => [a] | None => [] end) k) as [v|]; [reflexivity|].
       unfold file_lookup. cbn [f_index f_data app rows_lookup].
       rewrite Z.sub_0_r, Z.add_0_l. fold (zlen (slice vec sw stw)). rewrite Hnew. reflexivity.
+Qed.
+
+
+(* ------------------------------------------------------------------ files are created in increasing time order *)
+
+Fixpoint ms_incr (l : list Z) : Prop :=
+  match l with
+  | [] => True
+  | x :: r => match r with [] => True | y :: _ => x < y end /\ ms_incr r
+  end.
+
+Lemma ms_incr_snoc l F : ms_incr l -> Forall (fun x => x < F) l -> ms_incr (l ++ [F]).
+Proof.
+  induction l as [|x r IH]; intros Hs Hf; cbn [app ms_incr]; [auto|].
+  inversion Hf as [|? ? Hx Hr]; subst. cbn [ms_incr] in Hs. destruct Hs as (H1 & H2).
+  split; [|apply IH; assumption].
+  destruct r as [|y r']; cbn [app]; [exact Hx|exact H1].
+Qed.
+
+Lemma Fk_mono c K0 K : vcfg c -> 0 <= K0 <= K -> Fk c K0 <= Fk c K.
+Proof.
+  intros (Hn & Hd & Hf & _) HK. unfold Fk, F_of, ms_of.
+  apply Z.mul_le_mono_nonneg_l; [lia|]. apply Z.div_le_mono; [lia|]. apply Z.div_le_mono; [lia|]. nia.
+Qed.
+
+Lemma Fk_lt_of_below c K0 K : vcfg c -> 0 <= K0 -> whi c (Fk c K0) <= K -> Fk c K0 < Fk c K.
+Proof.
+  intros Hc H0 Hw. pose proof (Fk_window c K0 Hc) as W0.
+  pose proof (Fk_mono c K0 K Hc ltac:(lia)) as Hle.
+  destruct (Z.eq_dec (Fk c K0) (Fk c K)) as [E|NE]; [|lia].
+  exfalso. symmetry in E. apply (Fk_same c K0 K Hc) in E. lia.
 Qed.
 
 (* ------------------------------------------------------------------ the per-file loop, one block *)
@@ -386,6 +431,7 @@ Lemma loop_chunked c g vec : vcfg c -> c_chunk c = true -> 0 <= g ->
   exists st',
     write_loop fuel c st sw [(g, 0)] vec = (0, st') /\ Inv c st' /\
     (sw < zlen vec -> w_gi st' = g + zlen vec) /\ (sw = zlen vec -> st' = st) /\
+    (ms_incr (map f_ms (all_files st)) -> ms_incr (map f_ms (all_files st'))) /\
     forall k, lookup_st st' k =
       match lookup_st st k with Some v => Some v | None => in_new c g vec sw k end.
 Proof.
@@ -395,20 +441,30 @@ Proof.
     destruct (sw <? zlen vec) eqn:El.
     + apply Z.ltb_lt in El.
       destruct (step_chunked c st g vec sw Hc Hch HI ltac:(lia) (Hgi El) Hg0)
-        as (st1 & Hstep & Hpos & HI1 & Hgi1 & Hlk1).
+        as (st1 & Hstep & Hpos & HI1 & Hgi1 & Hms1 & Hlk1).
       rewrite Hstep.
       set (K := c_start c + (g + sw)) in *.
       set (stw := Z.min (whi c (Fk c K) - K) (zlen vec - sw)) in *.
       assert (E0 : (stw =? 0) = false) by (apply Z.eqb_neq; lia). rewrite E0.
       destruct (IH st1 (sw + stw) HI1 ltac:(unfold stw; lia) ltac:(intros _; lia)
                   ltac:(rewrite Nat2Z.inj_succ in Hfuel; lia))
-        as (st2 & Hloop & HI2 & Hgi2 & Hsame & Hlk2).
-      exists st2. split; [exact Hloop|]. split; [exact HI2|]. split; [|split].
+        as (st2 & Hloop & HI2 & Hgi2 & Hsame & Hso2 & Hlk2).
+      exists st2. split; [exact Hloop|]. split; [exact HI2|]. split; [|split; [|split]].
       * intros _. destruct (Z_lt_le_dec (sw + stw) (zlen vec)) as [Hlt|Hge].
         -- apply Hgi2. exact Hlt.
         -- assert (sw + stw = zlen vec) by (unfold stw in *; lia).
            rewrite (Hsame H). lia.
       * intros E. lia.
+      * intros Hso. apply Hso2. destruct Hms1 as [E|(E & Hall)]; rewrite E; [exact Hso|].
+        apply ms_incr_snoc; [exact Hso|]. apply Forall_map.
+        assert (HF : Forall (fun a => exists K0, 0 <= K0 /\ f_ms a = Fk c K0) (all_files st)).
+        { destruct HI as [_ Hf Ho]. unfold all_files. apply Forall_app. split.
+          - eapply Forall_impl; [|exact Hf]. intros a ((_ & _ & H) & _). exact H.
+          - destruct (w_openf st) as [a|]; [|constructor]. constructor; [|constructor].
+            destruct Ho as (_ & (_ & _ & H) & _). exact H. }
+        clear - Hall HF Hc. induction Hall as [|a l Ha _ IHl]; [constructor|].
+        inversion HF as [|? ? (K0 & HK0 & EK0) HF']; subst. constructor; [|apply IHl; exact HF'].
+        rewrite EK0 in *. apply Fk_lt_of_below; assumption.
       * intros k. rewrite Hlk2, Hlk1.
         destruct (lookup_st st k) as [v|]; [reflexivity|].
         unfold in_new.
@@ -432,7 +488,7 @@ Proof.
                rewrite A, B. reflexivity. }
            rewrite E3. reflexivity.
     + apply Z.ltb_ge in El. assert (sw = zlen vec) by lia.
-      exists st. split; [reflexivity|]. split; [exact HI|]. split; [lia|]. split; [reflexivity|].
+      exists st. split; [reflexivity|]. split; [exact HI|]. split; [lia|]. split; [reflexivity|]. split; [auto|].
       intros k. destruct (lookup_st st k); [reflexivity|].
       unfold in_new.
       assert (E : (c_start c + g + sw <=? k) && (k <? c_start c + g + zlen vec) = false).
@@ -463,6 +519,7 @@ Lemma write_one_chunked c st g vec : vcfg c -> c_chunk c = true -> Inv c st -> 0
   if g <? w_gi st then write_one c st g vec = (-3, st)
   else exists st', write_one c st g vec = (0, st') /\ Inv c st' /\
          w_gi st' = (if zlen vec =? 0 then w_gi st else g + zlen vec) /\
+         (ms_incr (map f_ms (all_files st)) -> ms_incr (map f_ms (all_files st'))) /\
          forall k, lookup_st st' k =
            if (c_start c + g <=? k) && (k <? c_start c + g + zlen vec)
            then nth_error vec (Z.to_nat (k - c_start c - g)) else lookup_st st k.
@@ -471,8 +528,8 @@ Proof.
   destruct (g <? w_gi st) eqn:Eg; [reflexivity|]. apply Z.ltb_ge in Eg.
   rewrite andb_false_r.
   destruct (loop_chunked c g vec Hc Hch Hg (S (length vec)) st 0 HI ltac:(unfold zlen; lia) ltac:(lia)
-              ltac:(unfold zlen; lia)) as (st' & Hl & HI' & Hgi' & Hsame & Hlk).
-  exists st'. split; [exact Hl|]. split; [exact HI'|]. split.
+              ltac:(unfold zlen; lia)) as (st' & Hl & HI' & Hgi' & Hsame & Hso & Hlk).
+  exists st'. split; [exact Hl|]. split; [exact HI'|]. split; [|split; [exact Hso|]].
   - destruct (zlen vec =? 0) eqn:E0.
     + apply Z.eqb_eq in E0. rewrite (Hsame (eq_sym E0)). reflexivity.
     + apply Z.eqb_neq in E0. apply Hgi'. unfold zlen in *. lia.
@@ -498,19 +555,20 @@ Definition model_step (c : cfg) (st : wstate) (op : Z * list Z) : wstate :=
   snd (write_one c st (fst op) (snd op)).
 
 Definition refines (c : cfg) (st : wstate) (s : spec) : Prop :=
-  Inv c st /\ w_gi st = s_cur s /\ forall k, lookup_st st k = s_map s k.
+  Inv c st /\ w_gi st = s_cur s /\ (forall k, lookup_st st k = s_map s k) /\
+  ms_incr (map f_ms (all_files st)).
 
 Lemma refines_step c st s op : vcfg c -> c_chunk c = true -> 0 <= fst op ->
   refines c st s -> refines c (model_step c st op) (spec_step c s op).
 Proof.
-  intros Hc Hch Hg (HI & Hgi & Hlk). destruct op as [g vec]. cbn [fst snd] in *.
+  intros Hc Hch Hg (HI & Hgi & Hlk & Hso). destruct op as [g vec]. cbn [fst snd] in *.
   unfold model_step, spec_step. cbn [fst snd].
   pose proof (write_one_chunked c st g vec Hc Hch HI Hg) as H.
   rewrite Hgi in H.
   destruct (g <? s_cur s).
-  - rewrite H. cbn [snd]. split; [exact HI|]. split; [exact Hgi|exact Hlk].
-  - destruct H as (st' & Hw & HI' & Hgi' & Hlk'). rewrite Hw. cbn [snd].
-    split; [exact HI'|]. split; [cbn [s_cur]; exact Hgi'|].
+  - rewrite H. cbn [snd]. split; [exact HI|]. split; [exact Hgi|]. split; [exact Hlk|exact Hso].
+  - destruct H as (st' & Hw & HI' & Hgi' & Hso' & Hlk'). rewrite Hw. cbn [snd].
+    split; [exact HI'|]. split; [cbn [s_cur]; exact Hgi'|]. split; [|exact (Hso' Hso)].
     intros k. cbn [s_map]. rewrite Hlk', Hlk. reflexivity.
 Qed.
 
@@ -523,7 +581,7 @@ Proof.
             refines c (fold_left (model_step c) ops st) (fold_left (spec_step c) ops s)).
   { induction Hops as [|op ops Hop _ IH]; intros st s HR; cbn [fold_left]; [exact HR|].
     apply IH. apply refines_step; assumption. }
-  apply G. split; [apply Inv_init|]. split; reflexivity.
+  apply G. split; [apply Inv_init|]. split; [reflexivity|]. split; [reflexivity|exact I].
 Qed.
 
 (* return codes: 0 exactly for the accepted calls *)
